@@ -116,3 +116,79 @@ package command
 //@   loop 0 row inserr:  [call Scan(_) as (more) ; call Text(_) as (ln) ; call strings.Index(ln, "#") as (c) ; call strings.Trim(bind_t, " ") as (tr) ; call ParseIPNet(tr) as (n, pe) ;
 //@                        call cidranger.NewBasicRangerEntry(bind_nv) as (en) ; call Insert(ranger, en) as (ie) ; call Close(_)]
 //@                          when more && len(tr) != 0 && pe == nil && ie != nil && ret1 == ie -> exit
+
+// ---------------------------------------------------------------------------------------------
+// C18: option parsing. Oracle: the statement - a value is accepted only as what the standard parsers denote for the
+// written parts, every part is used for its own field, nothing is accepted beyond the documented shape.
+//
+// port range "S" or "S-E": at most two parts; each bound is ParseUint(part, 10, 16) of its OWN part
+//@ func parsePortRange
+//@   props C18 C01
+//@   observe strings.Split, strconv.ParseUint
+//@   entry row toomany: [call strings.Split(portsRange, "-") as (ps)] when len(ps) > 2 && ret0 == nil && ret1 == scan.ErrPortRange -> exit
+//@   entry row badstart: [call strings.Split(portsRange, "-") as (ps) ; call strconv.ParseUint(bind_a, 10, 16) as (v, e)] when len(ps) <= 2 && a == ps[0] && e != nil && ret1 == e -> exit
+//@   entry row single:  [call strings.Split(portsRange, "-") as (ps) ; call strconv.ParseUint(bind_a, 10, 16) as (v, e)]
+//@                         when len(ps) < 2 && a == ps[0] && e == nil && ret1 == nil && ret0 != nil && ret0.StartPort == v && ret0.EndPort == v -> exit
+//@   entry row badend:  [call strings.Split(portsRange, "-") as (ps) ; call strconv.ParseUint(bind_a, 10, 16) as (v, e) ; call strconv.ParseUint(bind_b, 10, 16) as (v2, e2)]
+//@                         when len(ps) == 2 && a == ps[0] && b == ps[1] && e == nil && e2 != nil && ret1 == e2 -> exit
+//@   entry row range:   [call strings.Split(portsRange, "-") as (ps) ; call strconv.ParseUint(bind_a, 10, 16) as (v, e) ; call strconv.ParseUint(bind_b, 10, 16) as (v2, e2)]
+//@                         when len(ps) == 2 && a == ps[0] && b == ps[1] && e == nil && e2 == nil && ret1 == nil && ret0 != nil && ret0.StartPort == v && ret0.EndPort == v2 -> exit
+
+// comma separated list: one parsePortRange per part, results kept in order, first error aborts
+//@ func parsePortRanges
+//@   props C18 C01
+//@   observe strings.Split, parsePortRange
+//@   entry row split: [call strings.Split(portsRanges, ",") as (parts)] -> loop 0
+//@   loop 0 invariant noerr: err == nil
+//@   loop 0 row done: [] when ret1 == nil && ret0 == result -> exit
+//@   loop 0 row bad:  [call parsePortRange(portsRange) as (pr, e)] when e != nil && ret1 == e -> exit
+//@   loop 0 row part: [call parsePortRange(portsRange) as (pr, e)]
+//@                       when e == nil && len(result) == len(pre(result)) + 1 && result[len(pre(result))] == pr
+//@                         && (forall k int :: 0 <= k && k < len(pre(result)) ==> result[k] == pre(result[k])) -> continue
+
+// rate "N" or "N/W": count = ParseInt(N, 10, 32) >= 0; window = ParseDuration of the written window, where only a
+// window that does not start with a digit, '.', '+' or '-' (a bare unit such as "s") gets the shorthand count 1 prefixed;
+// no window means one second
+//@ func parseRateLimit
+//@   props C18 C15
+//@   observe strings.Split, strconv.ParseInt, strings.ContainsRune, time.ParseDuration
+//@   entry row toomany: [call strings.Split(rateLimit, "/") as (ps)] when len(ps) > 2 && ret2 == errRateLimit && ret0 == 0 && ret1 == 0 -> exit
+//@   entry row badcount: [call strings.Split(rateLimit, "/") as (ps) ; call strconv.ParseInt(bind_a, 10, 32) as (n, e)] when len(ps) <= 2 && a == ps[0] && (e != nil || n < 0) && ret2 == errRateLimit && ret0 == 0 && ret1 == 0 -> exit
+//@   entry row count:   [call strings.Split(rateLimit, "/") as (ps) ; call strconv.ParseInt(bind_a, 10, 32) as (n, e)] when len(ps) < 2 && a == ps[0] && e == nil && n >= 0 && ret2 == nil && ret0 == n && ret1 == 1000000000 -> exit
+//@   entry row empty:   [call strings.Split(rateLimit, "/") as (ps) ; call strconv.ParseInt(bind_a, 10, 32) as (n, e) ; call time.ParseDuration(bind_w) as (d, de)]
+//@                         when len(ps) == 2 && a == ps[0] && e == nil && n >= 0 && len(ps[1]) == 0 && w == ps[1] && ((de != nil || d < 0) ==> ret2 == errRateLimit) && ((de == nil && d >= 0) ==> ret2 == nil && ret0 == n && ret1 == d) -> exit
+//@   entry row window:  [call strings.Split(rateLimit, "/") as (ps) ; call strconv.ParseInt(bind_a, 10, 32) as (n, e) ; call strings.ContainsRune("0123456789.+-", bind_c) as (num) ; call time.ParseDuration(bind_w) as (d, de)]
+//@                         when len(ps) == 2 && a == ps[0] && e == nil && n >= 0 && len(ps[1]) > 0 && c == strbyte(ps[1], 0) && (num ==> w == ps[1]) && (!num ==> w == "1" + ps[1])
+//@                           && ((de != nil || d < 0) ==> ret2 == errRateLimit) && ((de == nil && d >= 0) ==> ret2 == nil && ret0 == n && ret1 == d) -> exit
+
+// payload: the Go-unquoted form of the text
+//@ func parsePacketPayload
+//@   props C18 C05
+//@   observe strconv.Unquote
+//@   entry row bad: [call strconv.Unquote(bind_q) as (u, e)] when q == "\"" + payload + "\"" && e != nil && ret1 == e -> exit
+//@   entry row ok:  [call strconv.Unquote(bind_q) as (u, e)] when q == "\"" + payload + "\"" && e == nil && ret1 == nil && len(ret0) == len(u) -> exit
+
+// IP flags: comma separated, case-insensitive; each name ORs in exactly its own bit (df = 2, evil = 4, mf = 1) and
+// keeps every bit set before; an unknown name is an error; the empty text is 0
+//@ func parseIPFlags
+//@   props C18 C05
+//@   observe strings.ToLower, strings.Split
+//@   entry row empty: [] when len(inputFlags) == 0 && ret0 == 0 && ret1 == nil -> exit
+//@   entry row split: [call strings.ToLower(inputFlags) as (low) ; call strings.Split(low, ",") as (fs)] when len(inputFlags) != 0 -> loop 0
+//@   loop 0 row done:    [] when ret0 == result && ret1 == nil -> exit
+//@   loop 0 row unknown: [] when flag != "df" && flag != "evil" && flag != "mf" && ret0 == 0 && ret1 == errIPFlags -> exit
+//@   loop 0 row df:   [] when flag == "df" && ((pre(result) / 2) % 2 == 1 ==> result == pre(result)) && ((pre(result) / 2) % 2 == 0 ==> result == pre(result) + 2) -> continue
+//@   loop 0 row evil: [] when flag == "evil" && ((pre(result) / 4) % 2 == 1 ==> result == pre(result)) && ((pre(result) / 4) % 2 == 0 ==> result == pre(result) + 4) -> continue
+//@   loop 0 row mf:   [] when flag == "mf" && (pre(result) % 2 == 1 ==> result == pre(result)) && (pre(result) % 2 == 0 ==> result == pre(result) + 1) -> continue
+
+// TCP flag names: comma separated, case-insensitive; a name is accepted iff it is a key of the option table; the
+// accepted (lower-cased) names are returned in order
+//@ func parseTCPFlags
+//@   props C18 C05
+//@   observe strings.Split, strings.ToLower
+//@   entry row empty: [] when len(tcpFlags) == 0 && len(ret0) == 0 && ret1 == nil -> exit
+//@   entry row split: [call strings.Split(tcpFlags, ",") as (fs)] when len(tcpFlags) != 0 -> loop 0
+//@   loop 0 row done:    [] when ret0 == result && ret1 == nil -> exit
+//@   loop 0 row unknown: [call strings.ToLower(_) as (lf)] when !mapin(tcpPacketFlagOptions, lf) && ret0 == nil && ret1 == errTCPflag -> exit
+//@   loop 0 row known:   [call strings.ToLower(_) as (lf)] when mapin(tcpPacketFlagOptions, lf) && len(result) == len(pre(result)) + 1 && result[len(pre(result))] == lf
+//@                          && (forall k int :: 0 <= k && k < len(pre(result)) ==> result[k] == pre(result[k])) -> continue
